@@ -4,8 +4,8 @@ PX (pristine processes) + a statement pool built to share cache keys (vf/props/_
 
 A HISTORY is one db_session:  s1 [m1] s2 [m2 s3]  - statements from the pool, optionally separated by an
 in-session modification (assign / create / delete / commit / rollback). Enumerated exhaustively:
-    quick     all ordered pairs (a, b) with a or b in the 20-statement core  x  {no modification, assign, create, delete}
-              (+ commit, rollback when both are core statements)
+    quick     all ordered pairs over the 20-statement core x {no modification, 5 modifications}, and every core
+              statement before and after every other pool statement (no modification)
     thorough  all ordered pairs over the whole pool x 6, and all ordered triples over the core x 6 x 6
 plus two long histories (whole pool forward / backward) that run inside one pristine process each.
 
@@ -21,14 +21,14 @@ reproduce there breaks the harness (exit 2) instead of being reported.
 
 Results are canonicalised: entity -> (class, pk), unordered results sorted, exceptions -> class name.
 """
-import os, sys, json, hashlib, itertools, threading
+import os, sys, json, hashlib, itertools, threading, time
 from vf import core
 
 LEVEL = 'model_checking'
 
 P = None            # the pool module, imported by setup()
 SCRATCH = None
-NZYG = 16
+NZYG = 2             # forks are serialised by the kernel here: more zygotes only burn CPU (measured 1..16: same wall)
 
 # ---- environment ----------------------------------------------------------------------------------------
 def setup():
@@ -163,18 +163,23 @@ def run_history(steps, probe=False):
                 tc = db._translator_cache
                 for k, t in fixed0:
                     if tc.get(k) is not t: info.invalidated += 1
-                if _hits(db) > hits0: info.result_cache_hits += 1
+                hits1 = _hits(db)
+                if hits1[0] > hits0[0] and hits1[1] == hits0[1]: info.result_cache_hits += 1
         P.rollback()
     if dirty: P.restore_rows()
     return res, info
 
 def _hits(db):
+    """(answers taken from cache.query_results, statements sent to the database) so far, from pony's own
+    per-thread statistics. list(query) asks len() and then iterates, so a query that went to the database
+    also scores one hit; an execution counts as answered from the result cache only if it scored hits
+    and sent nothing to the database."""
     st = getattr(db._dblocal, 'stats', None)
-    if not st: return 0
-    n = 0
+    if not st: return (0, 0)
+    n = d = 0
     for k, s in st.items():
-        if k is not None: n += s.cache_count     # the None entry is the total and starts at 1
-    return n
+        if k is not None: n += s.cache_count; d += s.db_count     # the None entry is the total
+    return (n, d)
 
 def modseq_of(steps, upto=None):
     return tuple(v for k, v in steps[:upto] if k == 'm')
@@ -277,11 +282,11 @@ def modseqs(maxlen):
     for n in range(1, maxlen + 1): out += list(itertools.product(MODS6[1:], repeat=n))
     return out
 
-MODS4 = (None, 'assign', 'create', 'delete')
 def pair_mods(a, b, quick):
-    """quick tier: commit / rollback between the two statements only when both are core statements"""
+    """quick tier: a modification between the two statements only when both are core statements (a pristine
+    reference costs one fork per (statement, modifications), forks are serialised by the kernel here)"""
     if not quick or (P.POOL[a].core and P.POOL[b].core): return MODS6
-    return MODS4
+    return (None,)
 
 def histories_of(job):
     """job ('pairs', a, [b...], quick) -> a [m] b ;  ('triples', a, b) -> a [m1] b [m2] c for c in core"""
@@ -427,7 +432,7 @@ def compute_cold(zyg, ctx, quick):
     n = len(P.POOL); core_ = set(P.CORE)
     want = []
     for i in range(n):
-        if quick and i not in core_: want += [(i, ())] + [(i, (m,)) for m in MODS4[1:]]
+        if quick and i not in core_: want.append((i, ()))
         else: want += [(i, ms) for ms in modseqs(1 if quick else 2)]
     want = ctx.shuffled(want)
     hist = [[('m', m) for m in ms] + [('s', i)] for i, ms in want]
@@ -442,7 +447,11 @@ def run(ctx):
     try:
         pool = P.POOL
         n = len(pool)
-        compute_cold(zyg, ctx, ctx.quick)
+        phase = {}; t0 = time.time()
+        def lap(name):
+            nonlocal t0
+            phase[name] = round(time.time() - t0, 1); t0 = time.time()
+        compute_cold(zyg, ctx, ctx.quick); lap('pristine_references')
         distinct_cold = len(set(COLD.values()))
         # the main process takes its own copy too (shrinking / attribution runs here)
         P.use_private_copy(SCRATCH)
@@ -451,6 +460,7 @@ def run(ctx):
             res, info = run_history([('s', i)])
             ctx.count('single_statements_emulated_in_process')
             if res[0] != COLD[(i, ())]: report(ctx, (('s', i),), 0, res[0], COLD[(i, ())])
+        lap('single_statements_in_process')
         # ---- two long histories, each inside ONE pristine process
         order = ctx.shuffled(range(n)) if ctx.seed else list(range(n))
         for seq in (order, order[::-1]):
@@ -468,6 +478,7 @@ def run(ctx):
                         if fails((('s', j), ('s', i))): pair = (('s', j), ('s', i)); break
                     if pair: report(ctx, pair, 1, res[pos], COLD[(i, ())])
                     else: report(ctx, steps, pos, res[pos], COLD[(i, ())])
+        lap('long_histories')
         # ---- the enumerated histories
         jobs = make_jobs(ctx.quick)
         prefixes = set()
@@ -484,6 +495,7 @@ def run(ctx):
             results.update(d['results'])
             core.absorb(ctx, d)
         if executed != expected: raise core.HarnessError('%d histories enumerated, %d executed' % (expected, executed))
+        lap('enumerated_histories')
         # ---- confirm every shape in fresh forked children (history and reference)
         for sig in sorted(ctx.found):
             case = ctx.found[sig]['case']
@@ -502,6 +514,8 @@ def run(ctx):
                 e = ctx.found.pop(sig)
                 if nsig in ctx.found: ctx.found[nsig]['n'] += e['n']
                 else: ctx.found[nsig] = e
+        lap('confirmations')
+        ctx.cov['phase_seconds'] = phase
     finally:
         zyg.close()
     ctx.count('zygote_forks', zyg.forks)
@@ -513,19 +527,25 @@ def run(ctx):
     ctx.cov['modifications'] = list(MODS6[1:])
     ctx.cov['distinct_results'] = len(results)
     ctx.cov['distinct_pristine_answers'] = distinct_cold
-    ctx.cov['bounds'] = ('ordered pairs with a core statement x {none, assign, create, delete} (+ commit, rollback inside the core)' if ctx.quick else
+    ctx.cov['bounds'] = ('ordered pairs over the core x 6 modifications; every core statement before/after every other pool statement' if ctx.quick else
                          'all ordered pairs over the pool x 6 modifications; all ordered triples over the core x 6 x 6 modifications')
-    minh = 10000 if ctx.quick else 200000
+    minh = 5000 if ctx.quick else 200000
+    known = core.load_known()
+    found_new = any(core.match_known(known, ctx.prop, sig) is None for sig in ctx.found)
+    def mech(minimum):
+        """guards on cache mechanisms protect a 'held' verdict from being vacuous; a run that reports a new
+        violation is not vacuous, and a broken mechanism (the usual cause of both) must not hide it behind exit 2"""
+        return 0 if found_new else minimum
     ctx.guard('histories executed', executed, minh)
     ctx.guard('executions answered without any new entry in any pony container (warm caches)',
-              c.get('executions_answered_without_any_new_cache_entry', 0), 300)
+              c.get('executions_answered_without_any_new_cache_entry', 0), mech(100 if ctx.quick else 2000))
     ctx.guard('translators thrown away because a fixed parameter value changed',
-              c.get('translators_invalidated_by_fixed_param_values', 0), 30)
-    ctx.guard('executions answered from the per-session query_results cache', c.get('executions_answered_from_query_results', 0), 100)
+              c.get('translators_invalidated_by_fixed_param_values', 0), mech(15 if ctx.quick else 100))
+    ctx.guard('executions answered from the per-session query_results cache', c.get('executions_answered_from_query_results', 0), mech(10 if ctx.quick else 100))
     ctx.guard('results compared after modifications that change the pristine answer',
-              c.get('results_compared_where_the_modifications_change_the_answer', 0), 2000)
-    ctx.guard('distinct results', len(results), 150)
-    ctx.guard('distinct pristine answers', distinct_cold, 150)
+              c.get('results_compared_where_the_modifications_change_the_answer', 0), 400 if ctx.quick else 20000)
+    ctx.guard('distinct results', len(results), 80 if ctx.quick else 300)
+    ctx.guard('distinct pristine answers', distinct_cold, 80 if ctx.quick else 300)
     ctx.guard('pool size', n, 80)
     ctx.assume('SQLite only (the only engine that can execute SQL here); adapt_sql for the other paramstyles is covered by C30')
     ctx.assume('a pristine process = a child forked from a zygote that imported pony and mapped the schema and never executed a statement')
